@@ -326,6 +326,18 @@ def act_token(act):
         return 'po=' + arg_token(act[1])
     if k == 'close':
         return 'cl=%s,%s' % ('N' if act[1] is None else act[1], arg_token(act[2]))
+    if k == 'send_json':
+        # send_json(obj) is json.dumps + send_text: the model sees the equivalent send_text call
+        import json as _json
+        kind, val = act[1]
+        if kind == 'obj':
+            try:
+                return 'st1=' + arg_token(('s', [ord(c) for c in _json.dumps(val)]))
+            except TypeError:
+                return 'st1=o'            # not serialisable: TypeError, like a non-str argument
+        if kind == 'kwargs':
+            return 'st1=' + arg_token(('s', [ord(c) for c in _json.dumps(val)]))
+        return 'st1=s55296'               # positional AND keyword arguments: ValueError
     if k == 'session_close':
         return 'sc'
     if k == 'abandon':
@@ -352,6 +364,14 @@ def do_act(world, ws, act):
             ws.send_ping(arg_value(act[1]))
         elif k == 'send_pong':
             ws.send_pong(arg_value(act[1]))
+        elif k == 'send_json':
+            kind, val = act[1]
+            if kind == 'obj':
+                ws.send_json(val)
+            elif kind == 'kwargs':
+                ws.send_json(**val)
+            else:
+                ws.send_json({'a': 1}, b=2)
         elif k == 'close':
             ws.close(act[1], arg_value(act[2]))
         elif k == 'session_close':
